@@ -173,7 +173,9 @@ def run(tier, seed, only=None):
             run_order(ctx, report, timeout_ms, name, sp)
         else:
             run_fixpoint(ctx, report, timeout_ms, name, sp)
-    items = [('repeat', 'rich', None), ('order', 'rich', None), ('fix', 'rich', None), ('fix', 'partly-readable-producers', None)]
+    from obligations import c06
+    items = [('repeat', 'rich', None), ('order', 'rich', None), ('fix', 'rich', None), ('fix', 'partly-readable-producers', None),
+             ('fix', 'dead-nested-blocks', c06.gc_module_e())]          # blocks nested in dead code leave orphan sequences in the IR
     if tier != 'quick':
         items += [('fix', v, None) for v in (0, 1, 2)]
     for name, sp in gl:
